@@ -219,6 +219,9 @@ pub struct Plan {
     /// the world but outside the root fails with ENAMETOOLONG: "whatever the attacker moves out of
     /// the root ends up nested deeper than PATH_MAX" (the kernel renders such paths into one page)
     pub outside_too_long: bool,
+    /// restricts `sticky` (errnos other than EMFILE/ENFILE) to one system call number: the
+    /// directory that cannot be listed any more, the one kernel path that is out of memory
+    pub sticky_nr: Option<i64>,
 }
 
 impl Plan {
@@ -233,6 +236,7 @@ impl Plan {
             "seed_entropy": self.seed_entropy,
             "fd_cap": self.fd_cap,
             "outside_too_long": self.outside_too_long,
+            "sticky_nr": self.sticky_nr,
         })
     }
     pub fn from_json(v: &Value) -> Plan {
@@ -254,6 +258,7 @@ impl Plan {
             seed_entropy: v.get("seed_entropy").and_then(|x| x.as_str()).map(|s| s.to_string()),
             fd_cap: v.get("fd_cap").and_then(|x| x.as_u64()).map(|x| x as usize),
             outside_too_long: v.get("outside_too_long").and_then(|x| x.as_bool()).unwrap_or(false),
+            sticky_nr: v.get("sticky_nr").and_then(|x| x.as_i64()),
         }
     }
 }
@@ -1413,7 +1418,7 @@ impl Universe {
                 if let Some((from, e)) = input.plan.sticky {
                     // descriptor exhaustion hits the descriptor-creating calls; any other errno (memory
                     // pressure, a signal storm, an LSM that starts denying) hits every call that can report it
-                    let applies = if e == libc::EMFILE || e == libc::ENFILE { is_fd_creating(nr, &n.data.args) } else { nr != libc::SYS_getrandom && fault_catalogue(nr).iter().any(|f| matches!(f, Fault::Errno(x) if *x == e)) };
+                    let applies = if e == libc::EMFILE || e == libc::ENFILE { is_fd_creating(nr, &n.data.args) } else { nr != libc::SYS_getrandom && input.plan.sticky_nr.map(|x| x == nr).unwrap_or(true) && fault_catalogue(nr).iter().any(|f| matches!(f, Fault::Errno(x) if *x == e)) };
                     if step >= from && applies {
                         fault = Some(Fault::Errno(e));
                     }
